@@ -4,32 +4,90 @@ from pathlib import Path
 
 ROOT = Path(__file__).resolve().parent.parent
 
+T = "Lean 4 proof about an executable model + model/implementation correspondence"
+N = ("Trusted: Lean kernel, axioms ⊆ {propext, Classical.choice, Quot.sound} (audited on every run); hand-written Lean model "
+     "tied to /repo only by this run's correspondence check (bounded by its generator); Python/float semantics on dyadic "
+     "times; third-party engines as stated in DESIGN.md §3.")
+
 CHECKS = {
-    'C01': dict(
-        text='Theorems about the Lean heap model (relation equations, uniqueness of the schedule, implicit predecessor) '
-             'hold for all worlds; the model is tied to the code by a differential run of random build programs through the '
-             'real API and the model driver, and the relation equations are re-evaluated on the implementation\'s own numbers.',
-        note='Trusted: Lean kernel, axioms ⊆ {propext, Classical.choice, Quot.sound}; hand-written heap model tied to /repo by '
-             'the correspondence run only; float times exact on multiples of 1/8; recursion limit not modelled.',
-        ref='DESIGN.md §4 C01', technique='Lean 4 proof + model/implementation correspondence'),
-    'C02': dict(
-        text='Listing = sorted path keys is proved a permutation of the inserted nodes with parents first; the implementation\'s '
-             'listing is compared with the model on random build programs and with a shadow multiset of added leaves.',
-        note='Trusted as C01; MAX_GRAPH_DEPTH/recursion limit outside the model.',
-        ref='DESIGN.md §4 C02', technique='Lean 4 proof + model/implementation correspondence'),
-    'C04': dict(
-        text='Duration = span is proved of the model\'s (lead, span) evaluator; the implementation (after the R2 repair) is compared '
-             'with the model and with the span recomputed from its own reported times on forced and random programs.',
-        note='Trusted as C01.',
-        ref='DESIGN.md §4 C04', technique='Lean 4 proof + model/implementation correspondence'),
+    'C01': dict(text='Timing evaluator of the heap model: relation equations, fuel monotonicity, uniqueness of the schedule and the '
+                     'implicit-predecessor rule are theorems; the model is run against the real API on random build programs (all 26 '
+                     'classes, nesting, unrolling, duration changes) and the relation equations are re-evaluated on the implementation\'s '
+                     'own numbers.', ref='DESIGN.md §4 C01'),
+    'C02': dict(text='Listing = nodes sorted by path key: permutation of the inserted nodes, parents first, insertion adds exactly one '
+                     'entry (theorems); the implementation\'s listing is compared with the model and with a shadow multiset of added '
+                     'leaves, causality and stability are checked on its own objects. Known finding R23 (group relation after nested '
+                     'unrolling).', ref='DESIGN.md §4 C02'),
+    'C03': dict(text='History independence: observers of the model are idempotent on the heap they leave (theorems, partial for the full '
+                     'frame statement); every generated history is replayed on the implementation with and without its intermediate '
+                     'observations and the final answers compared. Known finding R3.', ref='DESIGN.md §4 C03'),
+    'C04': dict(text='(lead, span) evaluator: span = latest end − earliest start over the node intervals, nested blocks shifted by their '
+                     'lead (theorems); implementation (after the R2 repair) compared with the model and with the span recomputed from '
+                     'its own reported times on forced and random programs.', ref='DESIGN.md §4 C04'),
+    'C05': dict(text='Per-class copy keeps every field and the relation type (theorems, all 26 classes); graph-level faithfulness is '
+                     'checked on the implementation at every copy/nesting/unrolling (sequence, positional relation targets, relative '
+                     'schedule, independence under later mutations) and against the model. Known finding R3.', ref='DESIGN.md §4 C05'),
+    'C06': dict(text='Unrolling: counts reset, idempotence, untouched outside operations, n·T for blocks whose last-ending operation is a '
+                     'leaf and the unrolled multiset are checked on the implementation at every apply_modifiers and against the model; '
+                     'the selection of the latest leaf (pickLatest) is proved. Library concatenation clause: known finding R5.',
+                ref='DESIGN.md §4 C06'),
+    'C07': dict(text='Two-counter acquisition scan: circuit index = position, qubit index = rank, filters and tag partition are theorems '
+                     'about the scan the driver executes; the implementation\'s indices and filter getters are compared with the model '
+                     'and with the enumeration predicate. Known findings R3, R15.', ref='DESIGN.md §4 C07'),
+    'C08': dict(text='Stim export: translate table, detector/observable record targets, export = image of the count-expanded listing and '
+                     '= filterMap translate of the listing when all counts are 1 (theorems, any nesting); multiset clause proved relative '
+                     'to C06; exports compared instruction-wise with the model before/after unrolling and flattening. Library clause: '
+                     'known finding R5.', ref='DESIGN.md §4 C08'),
+    'C09': dict(text='Product-state semantics of the exported gate set; protocol record, prepared states, detector and observable values '
+                     'proved for ALL cycle counts and ALL computational initial states over a kernel-checked table of 460 descriptions '
+                     '(chains ≤ 9 data qubits, every forward layout sub-chain) — partial in the chain length; generator tied to the real '
+                     'export text and to stim\'s tableau simulator.', ref='DESIGN.md §4 C09'),
+    'C10': dict(text='General no-overlap theorems about the timing evaluator (FOLLOWED_BY chains, block after block, interval covers '
+                     'nodes) for all non-negative durations; verified symbolic-schedule checker evaluated by the kernel on generated '
+                     'library heaps (partial: ≤ 110 objects, as constructed); constructors × random duration settings on the '
+                     'implementation and through the recorder + model.', ref='DESIGN.md §4 C10'),
+    'C11': dict(text='Flatten: leaf multiset, no remaining sub-circuit and idempotence are checked on the implementation at every flatten '
+                     'of implicitly sequenced programs and against the model; listing permutation lemmas shared with C02. Known findings '
+                     'R14 (cycle after unroll+flatten), R5 (library clause).', ref='DESIGN.md §4 C11'),
+    'C12': dict(text='Index kernels: contiguity, disjointness, tiling, category cover, translation by the cycle length and the estimate '
+                     'inverse proved for every rounds list / heralded / calibration flag / repetitions; exhaustive correspondence over all '
+                     'lists of ≤ 4 distinct rounds in {0..5}.', ref='DESIGN.md §4 C12'),
+    'C13': dict(text='Per-ancilla tag sequence of the multi-round experiment circuit vs kernel getters: kernel_eq_circuit proved for every '
+                     'rounds list; real circuits (d ∈ {2,3}, thorough ≤ 5) compared with real kernels, the Lean tag model and the Lean '
+                     'kernel model.', ref='DESIGN.md §4 C13'),
+    'C14': dict(text='Noise dressing: strip_dress, measurement arguments, block/idle structure proved for every instruction list and '
+                     'settings; probability bounds proved over the reals (Mathlib exp); dressed circuits compared structurally with the '
+                     'model and numerically (1e-12) with the formula.', ref='DESIGN.md §4 C14'),
+    'C15': dict(text='OpenQL export: name table, flat circuits = in-order image of the listing, deterministic names (theorems); nested: '
+                     'partial theorem + witness that the in-order statement is false of model and code (known finding R6); recorded '
+                     'kernel/program calls compared with the model; thorough tier compiles to cQASM.', ref='DESIGN.md §4 C15'),
+    'C16': dict(text='allowed_iff / parking_iff / generator_sound proved for EVERY list of device edges over tables regenerated from the '
+                     'code on each run (48×48 pair table by decide +kernel); exhaustive ≤ 3-edge (thorough ≤ 4) correspondence and '
+                     'generator soundness on the implementation.', ref='DESIGN.md §4 C16'),
+    'C17': dict(text='Shipped layouts executable by decide over regenerated tables; derived and composite descriptions executable and '
+                     'index map bijective for every involved-qubit list (theorems); all chains, random subsets/orderings and exclusions '
+                     'compared with the implementation.', ref='DESIGN.md §4 C17'),
+    'C18': dict(text='Drawing geometry (rows, pivots, widths, figure width, labels, rejection) proved of the model; plot ≡ one listing on '
+                     'the heap (frame theorem, partial for settledness); real plot_circuit descriptions/transforms compared with the '
+                     'model; side-effect clause by before/after and twin runs under foreign ambient durations.', ref='DESIGN.md §4 C18'),
+    'C19': dict(text='Channel matching, edge/qubit identity and hash, unique_in_order (33 theorems, full strength, about the definitions '
+                     'the heap model uses); exhaustive correspondence over 12² / 12³ channel identifiers, 17² qubits, 48² edges.',
+                ref='DESIGN.md §4 C19'),
 }
+for _c in CHECKS.values():
+    _c.setdefault('note', N)
+    _c.setdefault('technique', T)
 
 ALL = [f'C{i:02d}' for i in range(1, 20)]
 
 
 def main():
+    import os
+    built = {p for p in CHECKS if os.path.exists(ROOT / 'harness' / f'{p.lower()}.py')}
     checks = []
     for pid, c in CHECKS.items():
+        if pid not in built:
+            continue
         checks.append({
             'property_id': pid,
             'quick_cmd': f'./check {pid} --tier quick',
@@ -41,8 +99,10 @@ def main():
             'level_note': c['note'],
             'technique': c['technique'],
         })
+    import os
+    built = {p for p in CHECKS if os.path.exists(ROOT / 'harness' / f'{p.lower()}.py')}
     na = [{'property_id': p, 'reason': 'check not built yet in this round (planned, see DESIGN.md §4)'}
-          for p in ALL if p not in CHECKS]
+          for p in ALL if p not in built]
     doc = {
         'version': 1,
         'setup_cmd': 'cd lean && lake build',
@@ -55,7 +115,7 @@ def main():
         },
         'engines': [{
             'name': 'qcoverif', 'path': 'lean',
-            'serves_properties': sorted(CHECKS),
+            'serves_properties': sorted(built),
             'kind_free_text': 'Lean 4 model + theorems (lake project), native line-protocol driver, Python correspondence harness (harness/)',
         }],
         'checks': checks,
